@@ -16,12 +16,14 @@ import (
 func init() {
 	Register("C18", func(rc *RunCtx) {
 		cfg := GenQCfg(rc.Tape, QProfile{ForceReal: true, ShapeFaults: true, Corrupt: true, RefNames: true})
+		cfg.OfferHeaders = true
 		qr := RunQueue(rc, cfg)
 		CheckC18(rc, qr)
 		finishQ(rc, qr)
 	})
 	Register("C18.nofault", func(rc *RunCtx) {
 		cfg := GenQCfg(rc.Tape, QProfile{ForceReal: true, NoFaults: true, RefNames: true})
+		cfg.OfferHeaders = true
 		qr := RunQueue(rc, cfg)
 		CheckC18(rc, qr)
 		finishQ(rc, qr)
